@@ -32,6 +32,11 @@ def gen_cases(sd, tr):
         seen.add(s); shapes.append(s)
     cases = []
     tys = list(TYPES)
+    # shapes that select the three-column register block of _matmul_base (M and N multiples of 3*V::Size, N > 24) for every
+    # vector width, and the widest small-N kernels; always present, whatever the seed
+    SYS = [(6, 2, 30), (12, 3, 36), (12, 2, 72), (24, 2, 48), (24, 3, 72), (48, 2, 48), (10, 2, 3), (20, 3, 7), (10, 3, 15), (16, 5, 43), (12, 3, 46), (24, 2, 83)]
+    for s3 in SYS:
+        if s3 not in seen: seen.add(s3); shapes.append(s3)
     for (m, k, n) in shapes:
         # every shape in every real type; complex on a sample
         for ty in tys:
@@ -46,7 +51,7 @@ def gen_cases(sd, tr):
             # wide operands: A scaled by an odd constant beyond 32 bits (int64), resp. as large as keeps every product and sum exact in the type
             scale = SCALES[ty] if (ty in SCALES and not frac and g.next() % 2 == 0) else 1
             cases.append({'id': len(cases), 'ty': ty, 'M': m, 'K': k, 'N': n, 'modes': sorted(modes),
-                          'sa': g.next() % 100000, 'sb': g.next() % 100000, 'sc': g.next() % 100000, 'frac': frac, 'scale': scale})
+                          'sa': g.next() % 100000, 'sb': g.next() % 100000, 'sc': g.next() % 100000, 'frac': frac, 'scale': scale, 'sys': (m, k, n) in SYS})
     return cases
 
 CPP_HEAD = r'''
